@@ -356,9 +356,12 @@ def audit_sources():
 
 def check_props(pid: str):
     """Compile Props/<pid>.v (always, to get the Print Assumptions output). Returns dict."""
-    src = os.path.join(COQ, "Props", f"{pid}.v")
-    rc, out = sh(f"timeout 600 coqc -Q . PV Props/{pid}.v", 650, COQ)
-    theorems = re.findall(r"^(?:Theorem|Lemma)\s+(\w+)", open(src).read(), flags=re.M)
+    files = [f"Props/{pid}.v"] + ([f"Props/{pid}ext.v"] if os.path.exists(os.path.join(COQ, "Props", f"{pid}ext.v")) else [])
+    rc, out, theorems = 0, "", []
+    for rel in files:          # Props/<pid>ext.v holds later extensions of the same property
+        r1, o1 = sh(f"timeout 600 coqc -Q . PV {rel}", 650, COQ)
+        rc, out = rc or r1, out + o1
+        theorems += re.findall(r"^(?:Theorem|Lemma)\s+(\w+)", open(os.path.join(COQ, rel)).read(), flags=re.M)
     res = {"ok": rc == 0, "output": out, "theorems": theorems, "axioms": {}, "bad_axioms": [], "closed": 0}
     if rc != 0:
         return res
@@ -425,3 +428,39 @@ def coqchk(pid: str, timeout=2400):
         if not a.startswith("Coq."):
             bad.append(a)
     return ok and not bad, axioms, out[-1500:]
+
+
+# ------------------------------------------------------------------ models regenerated from the source text
+GEN_TARGETS = {          # property -> generated files (translator/py2gallina.py) tied to its model by GenProofs/<name>P.v
+    "C14": ["GenParam"], "C04": ["GenSimulator"], "C17": ["GenRemoteJob"], "C11": ["GenPerm"], "C08": ["GenDetector"],
+}
+
+
+def regenerate(pid: str):
+    """Re-translate the property's target functions from REPO's current source and re-check the lemmas
+    `*_src_equiv` that tie the generated definitions to the hand-written model. Fail-closed."""
+    names = GEN_TARGETS.get(pid, [])
+    info = {"lemmas": [], "broken": [], "generated": []}
+    if not names:
+        return info
+    sys.path.insert(0, os.path.join(VERIF, "translator"))
+    try:
+        import py2gallina
+        res = py2gallina.main(REPO, os.path.join(COQ, "Gen"), set(names))
+    except Exception as e:      # translator crashed: fail closed
+        res = {n: f"translator exception {type(e).__name__}: {e}" for n in names}
+    for n in names:
+        proof = os.path.join(COQ, "GenProofs", n + "P.v")
+        lemmas = re.findall(r"^(?:Lemma|Theorem)\s+(\w*_src_equiv\w*)", open(proof).read(), flags=re.M)
+        info["lemmas"] += lemmas
+        if res.get(n):
+            info["broken"].append((f"translator:{n}", res[n]))
+            continue
+        info["generated"].append(n)
+        rc, out = sh(f"timeout 300 coqc -Q . PV Gen/{n}.v && timeout 600 coqc -Q . PV GenProofs/{n}P.v", 950, COQ)
+        if rc != 0:
+            info["broken"].append((f"gen-proof:{n}P.v ({', '.join(lemmas)})", out[-2500:]))
+        else:
+            for a in re.findall(r"^Axioms:\n((?:.+\n)+)", out, flags=re.M):
+                info["broken"].append((f"gen-proof-axioms:{n}P.v", a))
+    return info
